@@ -692,9 +692,13 @@ impl Inc {
                 8 => {
                     if !received.is_empty() && self.explicit {
                         let op = rng.pick(&received).clone();
-                        let hash = self.hash_of(&op).await?;
-                        let r = rx.ack(hash).await;
-                        emit(json!({"p": "ack", "op": op, "res": ack_result(&r)}));
+                        // a received operation may have been pruned from its log meanwhile
+                        if let Ok(hash) = self.hash_of(&op).await {
+                            let r = rx.ack(hash).await;
+                            emit(json!({"p": "ack", "op": op, "res": ack_result(&r)}));
+                        } else {
+                            received.retain(|o| o != &op);
+                        }
                     }
                 }
                 _ => tokio::task::yield_now().await,
